@@ -4,6 +4,7 @@ import Sentinel.Lemmas.LeapArrayRaceOwn
 import Sentinel.Lemmas.LeapArrayRaceStarted
 import Sentinel.Lemmas.LeapArrayRaceRead
 import Sentinel.Lemmas.LeapArrayRaceDrain
+import Sentinel.Lemmas.LeapArrayRaceNonInt
 /-!
 # C09 — Sliding-window counters stay sound under concurrent writers and rollover
 (property theorems only; the invariants live in `Sentinel/Lemmas/LeapArrayRace*.lean`)
@@ -76,9 +77,11 @@ theorem no_invention_from (c0 : Cfg) (inv : Inv c0) (s : List Entry) :
   have h := ((run_inv _ s inv).th t ht).1 r hr
   exact ⟨h.1 v hv, h.2⟩
 
-/-- the invariant behind it, for readers still in progress: the partial sum a reader has accumulated is
-    bounded by what has been executed for its event, and no counter word exceeds its ghost total -/
-theorem no_invention_partial_sums (c0 : Cfg) (inv : Inv c0) (s : List Entry) :
+/-- the invariant behind it, for readers still **in progress** ("partial sums" = the sums a reader has accumulated
+    so far — this is a full theorem, not a `_partial`: nothing is assumed beyond reachability).  No counter word exceeds its
+    ghost total, and the partial sum of every reader in the middle of its summation is bounded by what has been executed for
+    its event. -/
+theorem no_invention_in_progress (c0 : Cfg) (inv : Inv c0) (s : List Entry) :
     (∀ i k, (run c0 s).sh.cnt i k ≤ (run c0 s).sh.tot i k) ∧
     ∀ t ∈ (run c0 s).th, ∀ op now rem acc, t.cur = some ⟨op, now, .mbGet rem acc⟩ →
       acc ≤ (run c0 s).sh.performed op.ev := by
@@ -422,6 +425,24 @@ theorem expired_visible_only_while_dirty (n L Iv t0 clock : Nat) (progs : List (
   simp at h
   omega
 
+/-- what keeps `expired_never_visible` a `_partial`: **only** the recorded finding `stale-counters-visible`.  Every single
+    load of a reader obeys the clause unless it hits a word inside its recycling window: at any reachable configuration,
+    a summation step on slot `j` whose word is not dirty adds at most `fresh j ev` — what has been recorded since the
+    slot's start was stored — to the reader's sum (and the step adds exactly the word's content). -/
+theorem load_le_fresh_unless_dirty (n L Iv t0 clock : Nat) (progs : List (List OpSpec)) (s : List Entry)
+    (op : OpSpec) (now j : Nat) (r : List Nat) (acc : Nat)
+    (hd : (run (fresh n L Iv t0 clock progs) s).sh.dirty j op.ev = false) :
+    let sh := (run (fresh n L Iv t0 clock progs) s).sh
+    ∃ v, v = acc + sh.cnt j op.ev ∧ v ≤ acc + sh.fresh j op.ev ∧
+      ((decideStep sh op now (.mbGet (j :: r) acc)).2 = .fin (some v)
+        ∨ (decideStep sh op now (.mbGet (j :: r) acc)).2 = .pc (.mbGet r v)) := by
+  intro sh
+  have h : sh.cnt j op.ev ≤ sh.fresh j op.ev := expired_visible_only_while_dirty n L Iv t0 clock progs s j op.ev hd
+  refine ⟨acc + sh.cnt j op.ev, rfl, by omega, ?_⟩
+  cases r with
+  | nil => left; rfl
+  | cons a q => right; rfl
+
 /-- … and in the witness the word *is* dirty when the reader loads it -/
 example : (run witnessInit (witnessSched.take 9)).sh.dirty 0 0 = true
     ∧ (run witnessInit (witnessSched.take 9)).sh.cnt 0 0 = 5
@@ -468,5 +489,111 @@ example :
     let c := run (fresh 2 500 1000 1000 1000 [[.add 0 5]]) [.step 0, .step 0, .step 0]
     (∀ j < 2, c.sh.dirty j 0 = false ∧ c.sh.lost j 0 = 0)
       ∧ ((validFrom c.sh 1400 2 0).map fun j => c.sh.fresh j 0) = [5] := by decide
+
+/-! ## concurrent readers at different timestamps do not influence each other -/
+
+/-- **non-interference of reads.**  Let thread `b` be a reader of a view (`SlidingWindowMetric.GetSum`: its program
+    consists of `viewsum` operations only, whatever their clock readings).  Deleting all steps of `b` from **any**
+    schedule changes neither the shared words nor the state — in particular the completed results — of any other thread:
+    a reader's result depends only on the words it loads and on its own `now`.  (Ticks stay in place: they are not steps
+    of `b`.) -/
+theorem readers_noninterference (c : Cfg) (b : Nat) (hb : ∀ t, c.th[b]? = some t → PureReader t) (s : List Entry) :
+    (run c s).sh = (run c (eraseThread b s)).sh ∧
+    ∀ i, i ≠ b → (run c s).th[i]? = (run c (eraseThread b s)).th[i]? := by
+  have h := quiet_erase b s c c ⟨rfl, rfl, fun _ _ => rfl⟩ (pure_quiet b s c hb)
+  exact ⟨h.sh, h.th⟩
+
+/-- the same for the results alone, from a fresh array: whatever the other threads do, reader `a`'s return values are the
+    same with and without the view reader `b` -/
+theorem reader_results_independent (n L Iv t0 clock : Nat) (progs : List (List OpSpec)) (a b : Nat) (hab : a ≠ b)
+    (hb : ∀ p, progs[b]? = some p → ∀ op ∈ p, op.isView = true) (s : List Entry) :
+    ((run (fresh n L Iv t0 clock progs) s).th[a]?.map fun t => t.res)
+      = ((run (fresh n L Iv t0 clock progs) (eraseThread b s)).th[a]?.map fun t => t.res) := by
+  have hp : ∀ t, (fresh n L Iv t0 clock progs).th[b]? = some t → PureReader t := by
+    intro t ht
+    simp only [fresh, List.getElem?_map] at ht
+    cases hpb : progs[b]? with
+    | none => rw [hpb] at ht; cases ht
+    | some p =>
+      rw [hpb] at ht
+      simp only [Option.map_some, Option.some.injEq] at ht
+      subst ht
+      exact ⟨hb p hpb, fun f hf => by simp [mkThread] at hf⟩
+  rw [(readers_noninterference _ b hp s).2 a hab]
+
+/-- the exact condition, for readers that refresh (`count` / `values`: `currentBucketOfTime` first): such a reader writes
+    only when its refresh recycles the slot of its current bucket; along every run in which the steps of `b` leave the
+    shared words unchanged (`QuietRun`: e.g. its bucket is already current) it can be deleted just the same -/
+theorem quiet_noninterference (c : Cfg) (b : Nat) (s : List Entry) (hq : QuietRun b c s) :
+    (run c s).sh = (run c (eraseThread b s)).sh ∧
+    ∀ i, i ≠ b → (run c s).th[i]? = (run c (eraseThread b s)).th[i]? := by
+  have h := quiet_erase b s c c ⟨rfl, rfl, fun _ _ => rfl⟩ hq
+  exact ⟨h.sh, h.th⟩
+
+/-- … and the condition is needed: a `count` at 2000 recycles slot 0 (bucket 1000, 5 passes) under a view reader that
+    read the clock at 1400; with the `count`'s steps the view reader returns 0, without them 5 -/
+theorem refresh_is_a_write :
+    let c := nextRound (run (fresh 2 500 1000 1000 1000 [[.add 0 5]]) [.step 0, .step 0, .step 0]) 1400 [[.viewsum 0], [.count 0]]
+    let s : List Entry := [.step 0, .tick 600, .step 1] ++ List.replicate 20 (.step 1) ++ List.replicate 8 (.step 0)
+    ((run c s).th[0]?.map fun t => t.res.map (·.val)) = some [some 0]
+      ∧ ((run c (eraseThread 1 s)).th[0]?.map fun t => t.res.map (·.val)) = some [some 5] := by decide
+
+/-- non-vacuity of `reader_results_independent`: two view readers three buckets apart over a filled 4-bucket array
+    (the `readers apart` configuration), interleaved step by step -/
+example :
+    let progs : List (List OpSpec) := [[.add 0 1, .add 0 2], [.viewsum 0], [.viewsum 0]]
+    let s : List Entry := [.step 0, .step 0, .step 0, .step 0, .step 0, .step 1, .tick 1500, .step 2] ++
+      (List.replicate 14 [Entry.step 1, Entry.step 2]).flatten
+    ((run (fresh 4 500 2000 4000 4000 progs) s).th[1]?.map fun t => t.res.map (·.val)) = some [some 3]
+      ∧ ((run (fresh 4 500 2000 4000 4000 progs) (eraseThread 2 s)).th[1]?.map fun t => t.res.map (·.val)) = some [some 3] := by
+  decide
+
+/-! ## far time jumps: a bucket older than one interval is never summed, whatever the gap -/
+
+/-- times are naturals in the model (`uint64` milliseconds in the code: no wrap below 2^64 ms): the filter of every reader
+    keeps a slot only if its start is not in the future and at most one whole interval old — for **any** distance between
+    the slot's start and the reader's clock reading (2^32 ms, 2^33 ms, …: no narrowing, no sign) -/
+theorem summed_bucket_is_recent (sh : Shared) (op : OpSpec) (now s : Nat) (h : keepOf sh op now s = true) :
+    s ≤ now ∧ now - s ≤ sh.n * sh.L := by
+  have hd : Sentinel.LA.deprecated (sh.n * sh.L) now s = false := by
+    cases op <;> simp [keepOf] at h <;> first | exact h | exact h.1
+  unfold Sentinel.LA.deprecated at hd
+  split_ifs at hd with hle
+  · exact ⟨hle, by simpa using hd⟩
+
+/-- a reader's scan step appends a slot only if it passes that filter: whatever was appended at this step is recent -/
+theorem scan_appends_only_recent (sh : Shared) (op : OpSpec) (now j : Nat) (col col' : List Nat) (p : Nat)
+    (h : (decideStep sh op now (.depLoad j col)).2 = .pc (.valGet p col')) (hj : col' ≠ col) :
+    col' = col ++ [j] ∧ sh.start j ≤ now ∧ now - sh.start j ≤ sh.n * sh.L := by
+  simp only [decideStep] at h
+  by_cases hn : j + 1 < sh.n
+  · rw [if_pos hn] at h
+    cases hk : keepOf sh op now (sh.start j)
+    · rw [hk] at h; simp at h; exact absurd h.2.symm hj
+    · rw [hk] at h; simp at h
+      exact ⟨h.2.symm, summed_bucket_is_recent sh op now _ hk⟩
+  · rw [if_neg hn] at h
+    generalize (if keepOf sh op now (sh.start j) = true then col ++ [j] else col) = c0 at h
+    cases c0 <;> simp [afterScan] at h
+
+/-- reader level: the slots a reader scheduled alone sums (`solo_viewsum`, `exact_solo_reader`) all have a start that is
+    at most one interval old at the reader's clock reading — after a gap of any length nothing older is ever summed -/
+theorem solo_reader_sums_only_recent (sh : Shared) (now : Nat) (m j0 : Nat) :
+    ∀ j ∈ validFrom sh now m j0, sh.start j ≤ now ∧ now - sh.start j ≤ sh.n * sh.L := by
+  induction m generalizing j0 with
+  | zero => intro j hj; simp [validFrom] at hj
+  | succ m ih =>
+    intro j hj
+    simp only [validFrom, List.mem_append] at hj
+    rcases hj with hj | hj
+    · cases hk : keepOf sh (.viewsum 0) now (sh.start j0)
+      · rw [hk] at hj; simp at hj
+      · rw [hk] at hj; simp at hj; subst hj
+        exact summed_bucket_is_recent sh _ now _ hk
+    · exact ih (j0 + 1) j hj
+
+/-- non-vacuity with a far jump: 5 passes at 1000, a view reader 2^32 + 300 ms later sums no slot at all -/
+example : validFrom (run (fresh 2 500 1000 1000 1000 [[.add 0 5]]) [.step 0, .step 0, .step 0]).sh (1000 + 2 ^ 32 + 300) 2 0 = [] := by
+  decide
 
 end Sentinel.C09
